@@ -81,6 +81,7 @@ type Obligation struct {
 	Result  SolverResult
 	All     []SolverResult
 	Inputs  []inputVar
+	Cases   []Term
 	Model   map[string]string
 }
 
@@ -113,6 +114,7 @@ type VC struct {
 	refKeys  map[string]bool
 	keyInt   map[string]types.Type
 	cutsHit  map[string]bool
+	guardDefs map[Term][]Term
 	axiomsDone bool
 	fpMode   bool
 	abstracted []string
@@ -172,6 +174,48 @@ func (vc *VC) assume(st *State, t Term) {
 	}
 }
 
+// caseSplit expands a merged block guard into the disjuncts of its definition (up to max leaves).
+func (vc *VC) caseSplit(g Term, max int) []Term {
+	cases := []Term{g}
+	for {
+		expanded := false
+		var next []Term
+		for _, c := range cases {
+			// a case is "(and G_x cond...)" or a bare guard name; expand the first defined guard name in it
+			name := c
+			rest := ""
+			if strings.HasPrefix(c, "(and ") {
+				body := c[5 : len(c)-1]
+				if i := strings.Index(body, " "); i > 0 && isAtom(body[:i]) {
+					name = body[:i]
+					rest = body[i+1:]
+				}
+			}
+			defs, ok := vc.guardDefs[name]
+			if !ok || len(cases)-1+len(defs) > max || expanded {
+				next = append(next, c)
+				continue
+			}
+			expanded = true
+			for _, d := range defs {
+				if rest != "" {
+					next = append(next, fmt.Sprintf("(and %s %s)", d, rest))
+				} else {
+					next = append(next, d)
+				}
+			}
+		}
+		cases = next
+		if !expanded {
+			break
+		}
+	}
+	if len(cases) <= 1 {
+		return nil
+	}
+	return cases
+}
+
 // splitAnd splits a top-level (and a b c) term into its conjuncts.
 func splitAnd(t Term) []Term {
 	if !strings.HasPrefix(t, "(and ") {
@@ -226,6 +270,7 @@ func (vc *VC) oblige(st *State, kind, label, goal, where, desc string) {
 		g = fmt.Sprintf("(=> %s %s)", st.guard, goal)
 	}
 	o := &Obligation{Name: name, Kind: kind, Fn: vc.key, Prefix: len(vc.lines), Goal: g, Where: where, Desc: desc, Expect: "unsat", vc: vc, Tags: vc.curTags}
+	o.Cases = vc.caseSplit(st.guard, 8)
 	vc.obls = append(vc.obls, o)
 }
 
@@ -397,7 +442,7 @@ func (vc *VC) epochBase(ep *Epoch, key string) Term {
 		if ep.over != nil && !ep.over[key] {
 			return vc.epochBase(ep.prev, key)
 		}
-		if strings.HasPrefix(key, "Z:") && ep.prev != nil && !ep.logHavoc {
+		if (strings.HasPrefix(key, "Z:") || strings.HasPrefix(key, "L:")) && ep.prev != nil && !ep.logHavoc {
 			return vc.epochBase(ep.prev, key) // the ghost call log is not part of the heap: havoc-all keeps it
 		}
 		n := fmt.Sprintf("H%d_%s", ep.id, ki.name)
@@ -510,7 +555,7 @@ func (vc *VC) havocKeys(st *State, wk *writeSet) {
 		st.epoch = ne
 		st.heap = map[string]Term{}
 		for k, v := range old {
-			if strings.HasPrefix(k, "Z:") {
+			if strings.HasPrefix(k, "Z:") || strings.HasPrefix(k, "L:") {
 				st.heap[k] = v
 			}
 		}
@@ -1205,6 +1250,10 @@ func (vc *VC) mergeStates(label string, guards []Term, sts []*State) *State {
 	}
 	n := &State{heap: map[string]Term{}, nonnil: map[Term]bool{}}
 	n.guard = vc.define("G_"+label, "Bool", or(guards...))
+	if vc.guardDefs == nil {
+		vc.guardDefs = map[Term][]Term{}
+	}
+	vc.guardDefs[n.guard] = append([]Term{}, guards...)
 	// epoch
 	same := true
 	for _, s := range sts[1:] {
